@@ -515,7 +515,12 @@ func linearizable(ops []opRec, stack bool) bool {
 		h = append(h, porcupine.Operation{ClientId: r.client, Input: pin{put: isPut, val: r.val},
 			Output: pout{val: r.val, ok: r.ok}, Call: r.call, Return: r.ret})
 	}
-	r := porcupine.CheckOperationsTimeout(model, h, 20*time.Second)
+	// bounded search: "Unknown" (time-out of the checker) is not a violation; the bound stays well
+	// below the whole-scenario hang guard
+	r := porcupine.CheckOperationsTimeout(model, h, 2*time.Second)
+	if r == porcupine.Unknown {
+		vlib.S().Class("porcupine-undecided")
+	}
 	return r != porcupine.Illegal
 }
 
